@@ -44,7 +44,32 @@ def gen_unicode():
     return "\n".join(out) + "\n"
 
 
+def gen_activetag():
+    import re
+    from behave.tag_matcher import ActiveTagMatcher, BoolValueObject
+    word = [c for c in range(0x250) if re.match(r"\w", chr(c))]
+    out = ["(* GENERATED from %s/behave/tag_matcher.py and Python's re by harness/gen_more.py *)" % REPO,
+           "From BV Require Import Base.", "",
+           "Definition word_cps : list N := %s." % clist(["%d%%N" % c for c in word], "N"),
+           "Definition at_prefixes : list ustr := %s." % clist([cstr_(p) for p in ActiveTagMatcher.tag_prefixes], "ustr"),
+           "Definition at_separator : ustr := %s." % cstr_(ActiveTagMatcher.value_separator),
+           "Definition at_negated : list bool := %s." % clist([cbool(ActiveTagMatcher(None).is_tag_negated(p)) for p in ActiveTagMatcher.tag_prefixes], "bool"),
+           "Definition at_ignore_unknown : bool := %s." % cbool(ActiveTagMatcher.ignore_unknown_categories),
+           "Definition bool_true_strings : list ustr := %s." % clist([cstr_(x) for x in sorted(BoolValueObject.TRUE_STRINGS)], "ustr"),
+           "Definition bool_false_strings : list ustr := %s." % clist([cstr_(x) for x in sorted(BoolValueObject.FALSE_STRINGS)], "ustr"),
+           "Definition lower_pairs : list (N * N) := %s." % clist(["(%d%%N, %d%%N)" % (c, ord(chr(c).lower())) for c in range(0x250)
+                                                                  if len(chr(c).lower()) == 1 and ord(chr(c).lower()) != c], "N * N")]
+    return "\n".join(out) + "\n"
+
+
+def cstr_(s):
+    if not s:
+        return "(@nil N)"
+    return "[" + "; ".join("%d%%N" % ord(c) for c in s) + "]"
+
+
 GENERATORS = {
+    "ActiveTagTables.v": gen_activetag,
     "SummaryTables.v": gen_summary,
     "UnicodeTables.v": gen_unicode,
 }
